@@ -568,8 +568,17 @@ class AtLeastKInARow(_KInARow):
 
         # Request sublists for k+1 to allow us to determine the transition
         sublistss = self._build_variable_sublistss(block, level, self.k + 1)
+        var_lists = block.build_variable_lists(level, self.within_block)
         implications = []
-        for sublists in sublistss:
+        for var_list, sublists in zip(var_lists, sublistss):
+            if not sublists:
+                # Fewer than k+1 trials in this range: a run of at least k
+                # must cover all of them, or there is no room for one at all.
+                if len(var_list) == self.k:
+                    implications.extend([If(v, And(var_list)) for v in var_list])
+                else:
+                    implications.extend([Not(v) for v in var_list])
+                continue
             # Starting corner case
             implications.append(If(sublists[0][0], And(sublists[0][1:-1])))
             for sublist in sublists:
@@ -639,9 +648,10 @@ class ExactlyKInARow(_KInARow):
                                  backend_request: BackendRequest
                                  ) -> None:
         sublistss = self._build_variable_sublistss(block, level, self.k)
+        var_lists = block.build_variable_lists(level, self.within_block)
         implications = []
 
-        for sublists in sublistss:
+        for var_list, sublists in zip(var_lists, sublistss):
             # Handle the regular cases (1 => 2 ^ ... ^ n ^ ~n+1)
             trim = len(sublists) if self.k > 1 else len(sublists) - 1
             for idx, l in enumerate(sublists[:trim]):
@@ -659,7 +669,12 @@ class ExactlyKInARow(_KInARow):
                 implications.append(If(p, q))
 
             # Handle the tail: if the last element is ON, the previous one must be ON.
-            last_run = sublists[-1]
+            if sublists:
+                last_run = sublists[-1]
+            else:
+                # Fewer than k trials in this range: the level cannot occur in it.
+                implications.extend([Not(v) for v in var_list])
+                last_run = []
             if len(last_run) > 1:
                 tail = list(reversed(last_run))  # [last, ..., first]
                 for i in range(len(tail) - 1):
